@@ -37,7 +37,27 @@
 #include <momo/stdish/unordered_multimap.h>
 #endif
 using namespace kit;
+// element category of the native binaries (round 5): 0 = trivially relocatable (+ a manager with Reallocate), 1 = nothrow move,
+// 2 = copy-only (moving IS copying), 4 = self-move-hostile.  Wrapper binaries always use 1.
+#ifndef ELEMCAT
+#define ELEMCAT 1
+#endif
+#if ELEMCAT == 0
+typedef ElemTriv E;
+#define MM MMR                      /* the manager of this binary also offers Reallocate (Array grows by realloc) */
+#define NATIVE_TOKEN "Nt"
+#elif ELEMCAT == 2
+typedef ElemCpy E;
+#define NATIVE_TOKEN "Nc"
+#elif ELEMCAT == 4
+typedef ElemSmh E;
+#define NATIVE_TOKEN "Ns"
+#else
 typedef ElemNtm E;
+#define NATIVE_TOKEN "N"
+#endif
+static const bool kMovable = (ELEMCAT != 2);      // copy-only elements are copied whenever they are relocated
+static const bool kTracked = (ELEMCAT != 0);      // ElemTriv is plain data: kit does not count its copies / moves
 typedef std::vector<int64_t> Vals;
 
 static std::string show(const Vals& v)
@@ -117,6 +137,12 @@ template<typename C> struct SeqAd      // Array / SegmentedArray / stdish::vecto
 };
 
 #ifdef NATIVE
+
+// ---- bucket classes (round 5).  momo picks the bucket class from the traits: a custom hash functor (HashTraitsStd<E, kit::Hash>)
+// is "slow" -> BucketLimP4 with stored hash-code parts resp. the BucketOpen2N2 fallback of HashBucketOpen8; only a key that
+// is declared fast-hashable and uses HashCoder/std::hash gets the real BucketOpen8 (and the noexcept relocation path).
+namespace std { template<> struct hash<E> { size_t operator()(const E& e) const noexcept { return size_t(uint64_t(e.Value()) * 0x9E3779B97F4A7C15ull); } }; }
+namespace momo { template<> struct IsFastNothrowHashable<E> : public std::true_type {}; }
 #define TRAITS_IS_STATEFUL true
 typedef MM Mgr;
 template<typename C> static int mm_id(const C& c) { return c.GetMemManager().GetId(); }
@@ -179,6 +205,36 @@ struct AdTreeSet : NatSet<NTreeSet, E>
 	static bool find(const NTreeSet& c, int64_t v) { return c.ContainsKey(E(v)); }
 	static void unusual(NTreeSet&, char, int) { g_unusual = true; }
 };
+
+
+typedef momo::HashTraits<E, momo::HashBucketOpen8> FTraits;                      // fast hash -> the real BucketOpen8
+typedef momo::HashSet<E, FTraits, MM> NHashSetFast;
+typedef momo::HashTraitsStd<E, Hash, Eq, momo::HashBucketOpen8> O2Traits;        // custom functor -> BucketOpen2N2<3> fallback
+typedef momo::HashSet<E, O2Traits, MM> NHashSetOpen2;
+struct AdHashSetFast : NatSet<NHashSetFast, E>
+{
+	static NHashSetFast make(int id) { return NHashSetFast(FTraits(), MM(id)); }
+	static std::string structure(const NHashSetFast& c) { return hash_structure(c); }
+	static bool find(const NHashSetFast& c, int64_t v) { return c.ContainsKey(E(v)); }
+	static void unusual(NHashSetFast&, char, int) {}
+};
+struct AdHashSetOpen2 : NatSet<NHashSetOpen2, E>
+{
+	static NHashSetOpen2 make(int id) { return NHashSetOpen2(O2Traits(), MM(id)); }
+	static std::string structure(const NHashSetOpen2& c) { return hash_structure(c); }
+	static bool find(const NHashSetOpen2& c, int64_t v) { return c.ContainsKey(E(v)); }
+	static void unusual(NHashSetOpen2&, char, int) {}
+};
+// the INTENDED classes are really instantiated
+static_assert(std::is_same<NHashSetFast::Bucket, momo::internal::BucketOpen8<NHashSetFast::BucketItemTraits>>::value, "HashSetFast must use BucketOpen8");
+static_assert(std::is_same<NHashSetOpen2::Bucket, momo::internal::BucketOpen2N2<NHashSetOpen2::BucketItemTraits, 3, true>>::value, "HashSetOpen2 must use the Open2N2 fallback");
+static_assert(NHashSet::Bucket::maxCount == 4 && !HTraits::isFastNothrowHashable, "HashSet: BucketLimP4<4> with hash-code parts (slow hash)");
+static_assert(NTreeSet::Node::maxCapacity == 4, "native trees use 4-item nodes");
+static_assert(NArrayIC::internalCapacity == 4 && NArray::internalCapacity == 0, "ArrayIC has an internal buffer of 4");
+static_assert(!std::is_base_of<HTraits, decltype(NHashSet::mCrew)>::value && !std::is_base_of<TTraits, decltype(NTreeSet::mCrew)>::value, "stateful manager -> pointer crew");
+static_assert(momo::IsTriviallyRelocatable<E>::value == (ELEMCAT == 0), "only the TRIV category is relocated by memcpy");
+static_assert(std::is_nothrow_move_constructible<E>::value == (ELEMCAT == 1 || ELEMCAT == 4 || ELEMCAT == 0), "CPY: move may throw (it copies)");
+static_assert(momo::internal::MemManagerProxy<MM>::canReallocate == (ELEMCAT == 0), "the TRIV binary's manager offers Reallocate");
 
 template<typename C> struct NatMap
 {
@@ -394,9 +450,10 @@ template<typename T> static Al<T> mk_al(int id) { return Al<T>(id); }
 #endif
 
 typedef momo::stdish::vector<E, Al<E>> SVec;
-struct AdVec
+typedef momo::stdish::vector_intcap<4, E, Al<E>> SVecIC;
+template<typename VecT> struct AdVecT
 {
-	typedef SVec Cont; typedef Cont C; static const bool crew = false, multi = true, alloc_move_ctor = true, is_stdish = true;
+	typedef VecT Cont; typedef Cont C; static const bool crew = false, multi = true, alloc_move_ctor = true, is_stdish = true;
 	static C make(int id) { return C(mk_al<E>(id)); }
 	static std::string structure(const C&) { return "A"; }
 	static bool find(const C& c, int64_t x) { for (const E& e : c) if (e.Value() == x) return true; return false; }
@@ -412,6 +469,8 @@ struct AdVec
 	static C move_with(C&& c, int id) { return C(std::move(c), mk_al<E>(id)); }
 	static void unusual(C&, char, int) {}
 };
+typedef AdVecT<SVec> AdVec;
+typedef AdVecT<SVecIC> AdVecIC;
 #if TRAITS < 16
 template<typename C, bool Multi> struct StdSetAd
 {
@@ -431,6 +490,7 @@ template<typename C, bool Multi> struct StdSetAd
 typedef momo::stdish::set<E, Less, Al<E>> SSet;
 typedef momo::stdish::multiset<E, Less, Al<E>> SMSet;
 typedef momo::stdish::unordered_set<E, Hash, Eq, Al<E>> SUSet;
+typedef momo::stdish::unordered_set_open<E, Hash, Eq, Al<E>> SUSetO;
 struct AdSet : StdSetAd<SSet, false>
 {
 	static SSet make(int id) { return SSet(Less(), mk_al<E>(id)); }
@@ -446,6 +506,13 @@ struct AdMSet : StdSetAd<SMSet, true>
 	static void unusual(SMSet&, char, int) { g_unusual = true; }
 };
 template<typename HS> static void overload_hash_set(HS& hs, std::function<void(int64_t)> ins, int n);
+struct AdUSetO : StdSetAd<SUSetO, false>
+{
+	static SUSetO make(int id) { return SUSetO(0, Hash(), Eq(), mk_al<E>(id)); }
+	static int id(const SUSetO& c) { return c.mHashSet.mCrew.mData == nullptr ? -1 : al_id(c.get_allocator()); }
+	static std::string structure(const SUSetO& c) { return hash_structure(c.mHashSet); }
+	static void unusual(SUSetO&, char, int) {}
+};
 struct AdUSet : StdSetAd<SUSet, false>
 {
 	static SUSet make(int id) { return SUSet(0, Hash(), Eq(), mk_al<E>(id)); }
@@ -556,6 +623,7 @@ template<typename Ad> static void build(typename Ad::Cont& c, const std::string&
 	char k = st[0]; int n = st.size() > 1 ? atoi(st.c_str() + 1) : 0;
 	if (k == 'e') return;
 	if (k == 'g' || k == 'h') { g_base = base; Ad::unusual(c, k, n); return; }
+	if (k == 'w') { for (int i = 0; i < n; ++i) Ad::ins(c, base); g_unusual = Ad::multi && n > 8; return; }      // ONE key with n values (value array crosses its size classes)
 	if (k == 'r') { for (int i = 0; i < n; ++i) { Ad::ins(c, base + 3 * i); if (Ad::multi && Ad::crew && i % 4 == 0) Ad::ins(c, base + 3 * i); } return; }   // traversal order
 	for (int i = 0; i < n; ++i) Ad::ins(c, base + 3 * i);
 	if (Ad::multi && Ad::crew && k != 'c') for (int i = 0; i < n; i += 4) Ad::ins(c, base + 3 * i);   // duplicates
@@ -602,7 +670,7 @@ template<typename Ad> static void run_case(const Case& cs, FILE* out)
 		else if (op == "moveca") Tp.reset(new C(Ad::move_with(std::move(S), cs.aid)));
 		else if (op == "copya") *Tp = S;
 		else if (op == "movea") *Tp = std::move(S);
-		else if (op == "swap") Ad::swap(*Tp, S);
+		else if (op == "swap") { if ((cs.sid + cs.aid) % 2 == 0) Ad::swap(*Tp, S); else { using std::swap; swap(*Tp, S); } }   // member / ADL friend
 		else if (op == "selfcopya") { C& r = S; S = r; }
 		else if (op == "selfmovea") { C& r = S; S = std::move(r); }
 		else if (op == "selfswap") Ad::swap(S, S);
@@ -633,11 +701,11 @@ template<typename Ad> static void run_case(const Case& cs, FILE* out)
 			if (tc != s0) fail("move-target-differs-from-former-source");
 			if (!sc.empty()) fail("move-left-source-non-empty");
 			bool keycopies_allowed = (cs.kind == "ummap" && sId != -1);     // element-wise path copies const keys
-			if (dc != 0 && !keycopies_allowed) fail("move-copied-elements");
+			if (dc != 0 && !keycopies_allowed && kMovable) fail("move-copied-elements");
 			if (sId != -1 && Ad::crew && !HasInline<Ad>::value && !s0.empty() && dm < s0.size()) fail("elementwise-move-did-not-move-each-element");
 		}
-		if (op == "swap") { if (tc != s0 || sc != t0) fail("swap-not-exact"); if (dc != 0) fail("swap-copied-elements"); }
-		if (self) { if (sc != s0) fail("self-op-changed-contents"); if (dc != 0 && op != "selfcopya") fail("self-op-copied"); if (sId != cs.sid) fail("self-op-changed-manager"); }
+		if (op == "swap") { if (tc != s0 || sc != t0) fail("swap-not-exact"); if (dc != 0 && kMovable) fail("swap-copied-elements"); }
+		if (self) { if (sc != s0) fail("self-op-changed-contents"); if (dc != 0 && op != "selfcopya" && kMovable) fail("self-op-copied"); if (sId != cs.sid) fail("self-op-changed-manager"); }
 		if (newobj && op == "copyc" && tId != cs.sid && TRAITS_IS_STATEFUL) fail("copy-ctor-manager");
 		// independence of a copy: mutate / destroy one side, re-check the other
 		std::string tie1;
@@ -655,7 +723,7 @@ template<typename Ad> static void run_case(const Case& cs, FILE* out)
 		{
 			Vals un = t0; un.insert(un.end(), s0.begin(), s0.end()); std::sort(un.begin(), un.end());
 			if (tc != un || !sc.empty()) fail("merge-result-wrong");
-			if (dc != 0) fail("merge-copied-elements");
+			if (dc != 0 && kMovable) fail("merge-copied-elements");
 			if constexpr (HasMerge<Ad>::value)
 			{
 				// every node of a tree lives in a pool buffer of the NodeParams of the set that holds the tree (NodeParams::MergeFrom
@@ -720,7 +788,7 @@ template<typename Ad> static void run_case(const Case& cs, FILE* out)
 		Vals s2c = Ad::contents(S), fc = useF ? Ad::contents(*Fobs) : Vals();
 		if (po == "clear" && !s2c.empty()) fail("clear-left-items");
 		if ((po == "swapf" || po == "fswap") && (s2c != f0 || fc != sBefore)) fail("post-swap-not-exact");
-		if (po == "massign" && (s2c != f0 || !fc.empty() || (dc1 != 0 && !(cs.kind == "ummap" && fId != -1)))) fail("post-move-assign-wrong");
+		if (po == "massign" && (s2c != f0 || !fc.empty() || (dc1 != 0 && kMovable && !(cs.kind == "ummap" && fId != -1)))) fail("post-move-assign-wrong");
 		if (po == "cassign" && (s2c != f0 || fc != f0)) fail("post-copy-assign-wrong");
 		if (po == "fmove" && (fc != sBefore || !s2c.empty())) fail("post-move-from-source-wrong");
 		if (po == "ilist" && Ad::is_stdish && Ad::crew && s2c != Vals({400001, 400004})) fail("post-ilist-wrong");
@@ -763,14 +831,18 @@ static bool dispatch(const Case& cs, FILE* out)
 	else if (cs.kind == "TreeMap") run_case<AdTreeMap>(cs, out);
 	else if (cs.kind == "DataTable") run_case<AdTable>(cs, out);
 	else if (cs.kind == "HashSetInl") run_case<AdHashSetInl>(cs, out);
+	else if (cs.kind == "HashSetFast") run_case<AdHashSetFast>(cs, out);
+	else if (cs.kind == "HashSetOpen2") run_case<AdHashSetOpen2>(cs, out);
 	else if (cs.kind == "TreeSetInl") run_case<AdTreeSetInl>(cs, out);
 	else return false;
 #else
 	if (cs.kind == "vec") run_case<AdVec>(cs, out);
+	else if (cs.kind == "vecic") run_case<AdVecIC>(cs, out);
 #if TRAITS < 16
 	else if (cs.kind == "set") run_case<AdSet>(cs, out);
 	else if (cs.kind == "mset") run_case<AdMSet>(cs, out);
 	else if (cs.kind == "uset") run_case<AdUSet>(cs, out);
+	else if (cs.kind == "useto") run_case<AdUSetO>(cs, out);
 	else if (cs.kind == "map") run_case<AdMap>(cs, out);
 	else if (cs.kind == "mmap") run_case<AdMMap>(cs, out);
 	else if (cs.kind == "umap") run_case<AdUMap>(cs, out);
@@ -792,7 +864,7 @@ int main()
 		if (nf != 9 && nf != 11 && nf != 12) { puts("? | orc=unparsable-case"); continue; }
 		cs.sst = nf >= 11 ? sst : "*"; cs.tst = nf >= 11 ? tst : "*"; cs.est = nf == 12 ? est : "*";
 #ifdef NATIVE
-		if (strcmp(trs, "N") != 0) { puts("wrong-binary | orc=wrong-binary"); continue; }
+		if (strcmp(trs, NATIVE_TOKEN) != 0) { puts("wrong-binary | orc=wrong-binary"); continue; }
 #else
 		if (atoi(trs) != TRAITS || trs[0] == 'N') { puts("wrong-binary | orc=wrong-binary"); continue; }
 #endif
